@@ -963,3 +963,89 @@ func c18Env(id uint64, src, dst string) *goat.Rpc {
 	}
 	return r
 }
+
+// ---- C18 dead-context reads: a Read that is given a context that has already ended -----------------------------
+
+// C18DeadRead: N envelopes for one key are fed while nobody reads the key's logical connection (the run loop parks handing
+// over the first). A consumer on its way out then calls Read Dead times with a context that has already ended - each such
+// call may return an envelope or the context's error - and a second consumer reads the rest with a live context. Every
+// envelope read from the shared transport is handed over exactly once, in order: none may vanish in a Read that failed.
+type C18DeadRead struct {
+	N    int  `json:"n"`
+	Dead int  `json:"dead"`
+	Ser  bool `json:"ser"`
+	// Interleave: dead-context and live reads alternate instead of all dead ones coming first
+	Interleave bool `json:"interleave"`
+}
+
+func genC18DeadRead(t *rapid.T) C18DeadRead {
+	return C18DeadRead{N: rapid.IntRange(1, 12).Draw(t, "n"), Dead: rapid.IntRange(1, 12).Draw(t, "dead"), Ser: rapid.Bool().Draw(t, "ser"), Interleave: rapid.Bool().Draw(t, "interleave")}
+}
+
+func execC18DeadRead(t *testing.T, c C18DeadRead) (v Verdict) {
+	var got []uint64
+	deadReturnedData := 0
+	res := kit.Bubble(t, func() {
+		bg := context.Background()
+		shared := kit.NewLink("shared", kit.NewTap(), c.Ser)
+		conns := make(chan goat.RpcReadWriter, 4)
+		dm := goat.NewDemux(bg, shared.B, func(r *goat.Rpc) string { return r.GetHeader().GetSource() }, func(rw goat.RpcReadWriter) { conns <- rw })
+		go dm.Run()
+		for i := 1; i <= c.N; i++ {
+			_ = shared.A.Write(bg, c18Env(uint64(i), "k0", "srv"))
+		}
+		kit.Settle()
+		var rw goat.RpcReadWriter
+		select {
+		case rw = <-conns:
+		default:
+			v.failf("the key's logical connection was not announced")
+			return
+		}
+		dead, cancel := context.WithCancel(bg)
+		cancel()
+		deadLeft := c.Dead
+		for len(got) < c.N {
+			if deadLeft > 0 {
+				deadLeft--
+				if r, err := rw.Read(dead); err == nil {
+					got = append(got, r.GetId())
+					deadReturnedData++
+				}
+				kit.Settle()
+				if !c.Interleave {
+					continue
+				}
+			}
+			ctx, cancelLive := context.WithTimeout(bg, time.Second)
+			r, err := rw.Read(ctx)
+			cancelLive()
+			if err != nil {
+				break // nothing more arrives
+			}
+			got = append(got, r.GetId())
+			kit.Settle()
+		}
+		dm.Stop()
+		shared.Close()
+		kit.Settle()
+	})
+	if res.Panic != nil {
+		v.failf("panic: %v\n%s", res.Panic, res.Stack)
+	}
+	for i, id := range got {
+		if id != uint64(i+1) {
+			v.failf("the reads on the logical connection returned ids %v: envelope #%d is missing or out of order (%d were fed; %d reads were given a context that had already ended, %d of them returned an envelope)", got, i+1, c.N, c.Dead, deadReturnedData)
+			break
+		}
+	}
+	if v.Fail == "" && len(got) != c.N {
+		v.failf("%d of %d envelopes were handed to a reader: ids %v (%d reads were given a context that had already ended, %d of them returned an envelope)", len(got), c.N, got, c.Dead, deadReturnedData)
+	}
+	v.Info = kit.CaseInfo{Labels: []string{"dead-ctx-read", fmt.Sprintf("deadread.some_returned_data=%v", deadReturnedData > 0)}, NonTrivial: true, Key: fmt.Sprintf("%+v", c), Sample: c}
+	return
+}
+
+func TestC18DeadRead(t *testing.T) {
+	checkProp(t, "C18", "dead-ctx-read", genC18DeadRead, execC18DeadRead)
+}
